@@ -71,6 +71,10 @@ def build_callable(sig, form, toks):
                f"decoy = make({dec})\nf = make({ens if enums else 'None'})\n")
     elif form == "class":
         src = (f"class f:\n    'doc of class'\n    def __init__(self, {params}):\n        self.got = {ret}\n")
+    elif form == "class_new":
+        # a pass-through __new__: inspect.signature(cls) is then (*args, **kwargs), the annotated __init__ still decides
+        src = (f"class f:\n    'doc of class'\n    def __new__(cls, *args, **kwargs):\n        return super().__new__(cls)\n"
+               f"    def __init__(self, {params}):\n        self.got = {ret}\n")
     exec(compile(src, "<verif-generated>", "exec", dont_inherit=True), mod.__dict__)
     return mod.f, mod, src
 
@@ -110,7 +114,7 @@ def _get_built(sig, form, entry):
         except Exception as e:
             g, err = None, e
         # the raw callable for the audit: for classes wrap() patches __init__ in place, so build a twin
-        raw = build_callable(sig, form, ALLTOKS)[0] if form == "class" else f
+        raw = build_callable(sig, form, ALLTOKS)[0] if form in ("class", "class_new") else f
         _BUILT[key] = (f, raw, g, err, meta, src)
     return _BUILT[key]
 
@@ -136,7 +140,7 @@ def observe(sig, call, form, entry):
         if builderr is not None:
             raise builderr
         got = g(*args, **kwargs)
-        if form == "class":
+        if form in ("class", "class_new"):
             got = got.got
     except TypeError:
         ev["res"] = "TypeError"
@@ -244,6 +248,8 @@ def run(ctx: Ctx) -> Outcome:
         for form in forms:
             for entry in ("bind", "wrap"):
                 plan.append((c, form, entry))
+        if len(c["sig"]) >= 1 and rng.random() < (0.25 if quick else 1.0):
+            plan.append((c, "class_new", "wrap"))      # (bind() of such a class sees only (*args, **kwargs): nothing to convert)
     for c in big:
         plan.append((c, "function", rng.choice(["bind", "wrap"])))
     for c, form, entry in plan:
